@@ -23,8 +23,9 @@ def run(ctx):
                 "(PersonalizeTrace.tla) that exactly the iterations after burn-in are kept, that the mode is the first kept draw of "
                 "lowest loss per individual, the mean bit-equal to the mean of the kept draws, and that outputs are keyed by the "
                 "input identifiers in input order, finite and shaped as the model expects; scipy_minimize runs (with / without "
-                "jacobian) are recorded through the optimiser call: the objective at the returned point is not worse than at the "
-                "starting point. Distinct = distinct (kind, algorithm, setting, cohort variant).")
+                "jacobian, default budget and a one-iteration budget that ends on a convergence issue) are recorded through the optimiser "
+                "call; the harness evaluates the objective of every individual at the RETURNED parameters on its own data: not worse "
+                "than at the starting point of its optimisation and equal to the value its optimisation reached. Distinct = distinct (kind, algorithm, setting, cohort variant).")
     ctx.assumptions = ["mixture_logistic personalization is a known finding (fails for every algorithm) and is reported, not explored"]
     tmp = os.path.join(ctx.tmp, "pe")
     os.makedirs(tmp, exist_ok=True)
@@ -49,6 +50,8 @@ def run(ctx):
             for jac in ((False,) if q else (False, True)):
                 recs.append(pe.run_optim(kind, v, ctx.seed + 2, jac))
                 ctx.case(key=(kind, "scipy", v, jac))
+        recs.append(pe.run_optim(kind, "plain", ctx.seed + 3, False, budget="one_iteration"))
+        ctx.case(key=(kind, "scipy", "plain", "one_iteration"))
     recs = [r for r in recs if r["status"] != "skipped_float_ambiguity"]
     send = [{k: v for k, v in r.items() if k != "objective_pairs"} for r in recs]
     ok, idx, r2 = cases.validate_records("PersonalizeTrace", CFG_T, send, tmp, "conf")
@@ -105,7 +108,7 @@ def run(ctx):
 def _conforms(r):
     base = r["ids_out"] == r["ids_in"] and r["one_set_each"] and r["all_finite"] and r["shapes_ok"]
     if r["type"] == "optim":
-        return base and r["never_worse"]
+        return base and r["never_worse"] and r["values_belong_to_ids"]
     if r["n"] - r["nb"] <= 0:
         return False
     ok = base and r["kept"] == list(range(r["nb"] + 1, r["n"] + 1)) and r["nb"] == r["nb_expected"]
@@ -123,7 +126,9 @@ def _why(r):
     out = []
     if r["ids_out"] != r["ids_in"]:
         out.append(f"identifiers {r['ids_out']} != input {r['ids_in']}")
-    for k in ("one_set_each", "all_finite", "shapes_ok", "never_worse") + (("mean_ok",) if r["algo"] == "mean" else ("mode_values_ok",)):
+    if r["type"] == "optim":
+        out.append(f"objective (start, reached, at returned point) {r.get('objective_pairs')}")
+    for k in ("one_set_each", "all_finite", "shapes_ok", "never_worse", "values_belong_to_ids") + (("mean_ok",) if r["algo"] == "mean" else ("mode_values_ok",)):
         if not r[k]:
             out.append(k)
     if r["type"] == "sampling":
